@@ -494,6 +494,89 @@ theorem processNode_reset_removes (c : Cfg) (hi : c.opts.skipInterpolation = tru
   rw [CV.Merge.lookup_eq_none_iff] at hk ⊢
   exact fun hin => hk (hs k hin)
 
+/-! ## Round 6 — `!override` at full strength: which top-level keys the remaining stages can drop -/
+
+theorem erase_keys_mem (k0 : String) : ∀ (kvs : Val.KVs) (k : String), k ≠ k0 → k ∈ Val.keys kvs → k ∈ Val.keys (Val.erase k0 kvs)
+  | [], _, _, h => by simp [Val.keys] at h
+  | (k', v') :: r, k, hne, h => by
+    simp only [Val.keys, List.map_cons, List.mem_cons] at h
+    simp only [Val.erase]
+    split
+    · rename_i hk
+      rcases h with h | h
+      · exact absurd (h.trans hk.symm) hne
+      · exact erase_keys_mem k0 r k hne h
+    · simp only [Val.keys, List.map_cons, List.mem_cons]
+      rcases h with h | h
+      · exact Or.inl h
+      · exact Or.inr (erase_keys_mem k0 r k hne h)
+
+theorem schemaStage_keeps_key (o : Opts) (u : Val.KVs) (d : Val) (k : String) (hk : k ≠ "version")
+    (h : schemaStage o (.map u) = .ok d) (hin : k ∈ Val.keys u) : ∃ kvs, d = .map kvs ∧ k ∈ Val.keys kvs := by
+  unfold schemaStage at h
+  split at h
+  · cases h; exact ⟨u, rfl, hin⟩
+  · split at h
+    · simp only [Out.ok.injEq] at h
+      subst h
+      exact ⟨_, rfl, erase_keys_mem "version" u k hk hin⟩
+    · cases h
+
+/-- every pattern of the omit-empty table has at least two parts (`services.*.…`): nothing is omitted at the top level
+(the root path is the one-part path `""`, which a one-part pattern `*` would match) -/
+theorem mustOmit_root (pats : List (List String)) (h : ∀ pat ∈ pats, 2 ≤ pat.length) : C01.mustOmit pats TPath.root = false := by
+  simp only [C01.mustOmit, List.any_eq_false]
+  intro pat hp
+  have := h pat hp
+  match pat, this with
+  | a :: b :: r, _ => simp [TPath.root, TPath.pmatch]
+
+theorem omitKVs_keys_eq (pats : List (List String)) (p : TPath) (h : C01.mustOmit pats p = false) :
+    ∀ m : List (String × C01.GoVal), (C01.omitKVs pats m p).map Prod.fst = m.map Prod.fst
+  | [] => by simp [C01.omitKVs]
+  | (k, v) :: r => by simp [C01.omitKVs, h, omitKVs_keys_eq pats p h r]
+
+theorem omitEmpty_top_keys_eq (pats : List (List String)) (hp : ∀ pat ∈ pats, 2 ≤ pat.length) (kvs : Val.KVs) (d : Val)
+    (h : omitEmpty pats (.map kvs) = .ok d) : ∃ r, d = .map r ∧ Val.keys r = Val.keys kvs := by
+  simp only [omitEmpty, C01.omitEmptyTop, C01.omitEmpty, Out.ok.injEq] at h
+  subst h
+  refine ⟨_, rfl, ?_⟩
+  simp only [Val.keys, toKVs_keys, omitKVs_keys_eq pats TPath.root (mustOmit_root pats hp), ofKVs_keys]
+
+/-- every top-level key other than `version` survives schema validation, canonicalisation, omit-empty (no pattern of
+its table is shorter than two parts) and the second unicity pass -/
+theorem restStages_keeps_top_key (c : Cfg) (hp : ∀ pat ∈ c.omitPats, 2 ≤ pat.length) (u : Val.KVs) (r : Val) (k : String)
+    (hk : k ≠ "version") (hin : k ∈ Val.keys u) (h : restStages c (.map u) = .ok r) :
+    ∃ kvs, r = .map kvs ∧ k ∈ Val.keys kvs := by
+  unfold restStages at h
+  obtain ⟨d1, h1, h⟩ := pbind_ok h
+  obtain ⟨d2, h2, h⟩ := pbind_ok h
+  obtain ⟨d3, h3, h⟩ := pbind_ok h
+  obtain ⟨k1, rfl, s1⟩ := schemaStage_keeps_key c.opts u d1 k hk h1 hin
+  have h2' : Short.canonical c.opts.skipInterpolation (.map k1) = .ok d2 := by
+    cases hc : Short.canonical c.opts.skipInterpolation (.map k1) <;> simp_all [ofShort]
+  obtain ⟨k2, rfl, s2⟩ := canonical_top_keys _ k1 d2 h2'
+  obtain ⟨k3, rfl, s3⟩ := omitEmpty_top_keys_eq _ hp k2 d3 h3
+  have h4 := ofMerge_ok h
+  simp only [Unicity.enforceTop, Unicity.enforce] at h4
+  obtain ⟨m, hm, h4⟩ := CV.Unicity.out_bind_ok h4
+  simp only [Merge.Out.ok.injEq] at h4
+  subst h4
+  refine ⟨m, rfl, ?_⟩
+  rw [CV.C04.enforceKVs_keys _ _ _ hm, s3, s2]
+  exact s1
+
+/-- **`!override` on a top-level entry, through all stages of the composed step**: the key is in the returned model
+(it came from the later document alone: `override_replaces`).  Hypotheses, both necessary: the key is not `version`
+(schema validation deletes it) and every pattern of the omit-empty table has at least two parts (true of `loader.omitempty`: all start with `services.*.`). -/
+theorem processNode_override_replaces (c : Cfg) (hi : c.opts.skipInterpolation = true) (he : c.opts.skipExtends = true)
+    (hp : ∀ pat ∈ c.omitPats, 2 ≤ pat.length)
+    (a : Val.KVs) (es : List (String × Reset.YNode)) (k : String) (x : Reset.YNode) (r : Val) (hk : k ≠ "version")
+    (ht : x.tag = .override) (hnd : (es.map Prod.fst).Nodup) (hmem : (k, x) ∈ es)
+    (h : processNode c (.map a) (.map .none es) = .ok r) : ∃ kvs, r = .map kvs ∧ k ∈ Val.keys kvs := by
+  obtain ⟨u, _, hin, hr⟩ := processNode_override_replaces_partial c hi he a es k x r ht hnd hmem h
+  exact restStages_keeps_top_key c hp u r k hk hin hr
+
 /-- non-vacuity of the hypotheses of `processNode_reset_removes` / `processNode_refines_docStep`: a configuration with
 interpolation, extends and validation off, a base model with `services` and `volumes`, a document that resets
 `volumes` — the composed step succeeds and the returned model has no `volumes` -/
@@ -501,7 +584,9 @@ def exCfg : Cfg :=
   { opts := { skipInterpolation := true, skipValidation := true, skipExtends := true }
     interp := { table := [], fp := { f64 := fun _ => none, f32 := fun _ => none }, env := fun _ => none }
     paths := { wd := [], home := none }
-    env := [], projectName := "p", clean := id, omitPats := [] }
+    env := [], projectName := "p", clean := id, omitPats := [["services", "*", "dns"]] }
+
+example : ∀ pat ∈ exCfg.omitPats, 2 ≤ pat.length := by decide
 
 example : processNode exCfg
     (.map [("services", .map [("web", .map [("image", .str "nginx")])]), ("volumes", .map [("data", .map [])])])
